@@ -655,11 +655,22 @@ impl Datamodel for ECMAScriptDatamodel {
     }
 
     fn assign(self: &mut ECMAScriptDatamodel, left_expr: &Data, right_expr: &Data) -> bool {
-        self.assign_internal(
+        // <assign> must be refused (error.execution) for the read-only system variables and for locations
+        // that were never declared. Sloppy-mode ECMAScript silently ignores the first and creates a global
+        // for the second; only strict mode reports them.
+        let sloppy = !self.strict_mode;
+        if sloppy {
+            self.context.strict(true);
+        }
+        let r = self.assign_internal(
             left_expr.as_script().as_str(),
             right_expr.as_script().as_str(),
             false,
-        )
+        );
+        if sloppy {
+            self.context.strict(false);
+        }
+        r
     }
 
     fn get_by_location(self: &mut ECMAScriptDatamodel, location: &str) -> Result<DataArc, String> {
